@@ -12,7 +12,7 @@ DEFAULT_PROFILE = {
     "p_cli_select": 0.3, "p_cli_disable": 0.25, "p_cli_define": 0.3, "p_cli_builders": 0.3, "p_cli_apps": 0.3,
     "p_partition": 0.0, "p_local": 0.0, "p_escape": 0.08, "p_expr": 0.1, "p_postlink": 0.15, "p_srcdir": 0.1,
     "p_removes": 0.1, "p_notify_all": 0.05, "p_nobindir": 0.0, "p_include": 0.1, "p_bad": 0.0,
-    "p_cycle": 0.02, "p_task_fail": 0.0, "p_same_override": 0.15, "p_hard_missing": 0.03, "p_app_elsewhere": 0.25,
+    "p_cycle": 0.02, "p_task_fail": 0.0, "p_out_per_builder": 0.3, "p_same_override": 0.15, "p_hard_missing": 0.03, "p_app_elsewhere": 0.25,
 }
 
 VARS = ["CFLAGS", "DEFS", "OPT", "X", "LIBS"]
@@ -334,8 +334,9 @@ class Gen:
                 m["allowlist"] = [rng.choice(["b0", "b1", "c1", "default"]) for _ in range(rng.randint(1, 2))]
         if not app:
             if self.chance("p_custom_build"):
+                per_builder = "${builder}/" if self.chance("p_out_per_builder") else ""
                 m["build"] = {"cmd": ["gen ${in} > ${out}", "touch ${out}"][: rng.randint(1, 2)],
-                              "out": [f"${{build-dir}}/gen/{name}.h"] + ([f"${{build-dir}}/gen/{name}2.h"] if rng.random() < 0.3 else [])}
+                              "out": [f"${{build-dir}}/gen/{per_builder}{name}.h"] + ([f"${{build-dir}}/gen/{name}2.h"] if rng.random() < 0.3 else [])}
                 if rng.random() < 0.2:
                     m["build"]["gcc_deps"] = "${out}.d"
             elif self.chance("p_download"):
